@@ -107,13 +107,16 @@ def optList : P (List String) := fun ts => match ts with
   | [] => some ([], [])
   | _ => listOf word ts
 
+/-- all remaining words -/
+def optList0 : P (List String) := fun ts => some (ts, [])
+
 def handler : Handler := fun op args =>
   match op with
   | "sched" => run (do
       let ps ← listOf nat
       let steps ← listOf pStep
-      let flav ← listOf word   -- how child i adopts the lock (run | fork | import): one model step
-      if !(flav.all fun f => f == "run" || f == "fork" || f == "import") then failure
+      let flav ← listOf word   -- how child i adopts the lock (run | fork | import; `-o`: its Process subclass overrides run() without super().run()): one model step
+      if !(flav.all fun f => f == "run" || f == "fork" || f == "import" || f == "run-o" || f == "fork-o") then failure
       -- optionally: which synchronized function each thread calls at top level (p = probe,
       -- i / w / f = UrwidImageScreen.get_available_raw_input / write / flush) — one model `call`
       let fns ← optList
@@ -144,6 +147,10 @@ def handler : Handler := fun op args =>
   -- calls overlap, whatever the start method
   | "mp" => run (do
       let m ← word; let h ← word; let _ ← nat; let _ ← nat
+      -- optionally: how the child's code is supplied (target | run | runsuper) and whether foreign
+      -- wrappers were put on BaseProcess before the import (0 | 1)
+      let extra ← optList0
+      if !(extra.all fun w => w == "target" || w == "run" || w == "runsuper" || w == "after" || w == "0" || w == "1") then failure
       if (m == "fork" || m == "spawn" || m == "forkserver" || m == "mixed") && (h == "default" || h == "ctx") then
         pure "ok overlaps=0"
       else failure) args
